@@ -44,9 +44,9 @@ Proof.
   rewrite (existsb_ext_in _ (fun p => amem p st)); auto. intros x _. apply amem_aset_present. auto.
 Qed.
 
-Lemma eval_constr_aset pok fuel c st k key v :
+Lemma eval_constr_aset vr pok fuel c st k key v :
   constr_proved k = true -> ~ In key (constr_names c k) -> amem key st = true ->
-  eval_constr pok fuel c (aset key v st) k = eval_constr pok fuel c st k.
+  eval_constr vr pok fuel c (aset key v st) k = eval_constr vr pok fuel c st k.
 Proof.
   intros Hp Hn Hk. destruct fuel; auto. destruct k; simpl in Hp; try discriminate; simpl.
   - apply at_least_one_aset; auto.
@@ -73,6 +73,7 @@ Proof.
 Qed.
 
 Section Constr.
+  Variable vr : variant.
   Variable pok : ver -> ustring -> bool.
   Variables c sc : cls.
   Hypothesis Hfam : cfamily c = cfamily sc.
@@ -120,7 +121,7 @@ Section Constr.
     constr_proved k = true ->
     (forall p, In p (constr_names c k) -> mem_ustr p (dconst_names c) = false) ->
     (uses_default_checked k = true -> default_checked c <> []) ->
-    eval_constr pok fuel c setting k = Ok tt ->
+    eval_constr vr pok fuel c setting k = Ok tt ->
     jconstr pok 1 sc mem k = true.
   Proof.
     intros Hp Hn Hd H. destruct fuel; [discriminate|].
@@ -172,11 +173,11 @@ Section Constr.
 End Constr.
 
 (* the stored properties with the value of a present property written over *)
-Lemma facts_aset sp pok c sc key v setting :
-  facts sp pok c sc setting -> entry_ok sp pok sc key v -> amem key setting = true ->
+Lemma facts_aset vr sp pok c sc key v setting :
+  facts vr sp pok c sc setting -> entry_ok sp pok sc key v -> amem key setting = true ->
   (forall k, In k ((match cfamily c with FExt => [CAtLeastOneDefault] | _ => [] end) ++ ccons c) ->
              constr_proved k = true /\ ~ In key (constr_names c k)) ->
-  facts sp pok c sc (aset key v setting).
+  facts vr sp pok c sc (aset key v setting).
 Proof.
   intros (HInv & Hreq & Hdef & fuel & Hall) Hv Hk Hcons.
   split; [apply Inv_aset; auto|]. split; [|split].
